@@ -1283,6 +1283,17 @@ func randomTaxDef(rng *rand.Rand, n int, shape string) *taxDef {
 		}
 		d.Name[i] = "Taxon " + strconv.Itoa(i+1)
 	}
+	if (shape == "chain" || n > 150) && rng.Intn(2) == 0 {
+		// ranks that occur near the root only: from a deep taxon the nearest ancestor of such a rank is hundreds of
+		// parent links away
+		root := d.rootTaxid()
+		for i := 0; i < n; i++ {
+			d.Rank[i] = "no rank"
+			if p := d.Parent[i]; i+1 == root || p == root || d.Parent[p-1] == root {
+				d.Rank[i] = []string{"class", "order", "family"}[rng.Intn(3)]
+			}
+		}
+	}
 	na := rng.Intn(8)
 	if rng.Intn(5) == 0 {
 		na = 0
@@ -1594,6 +1605,49 @@ func recordC14(env *Env) {
 			}
 		}
 		jobs = append(jobs, job{d, shape, qs, env.seed*31 + int64(t)})
+	}
+	// a chain of 300 taxa whose upper ranks occur next to the root only, asked about its deepest taxa
+	{
+		rng := rand.New(rand.NewSource(env.seed*104729 + 7))
+		n := 300
+		d := &taxDef{Parent: randomTree(rng, n, "chain"), Rank: make([]string, n), Name: make([]string, n), Alias: [][]int{}}
+		root := d.rootTaxid()
+		depth := make([]int, n+1)
+		for i := 1; i <= n; i++ {
+			for x := i; x != root; x = d.Parent[x-1] {
+				depth[i]++
+			}
+		}
+		for i := 0; i < n; i++ {
+			d.Name[i] = "Taxon " + strconv.Itoa(i+1)
+			d.Rank[i] = "no rank"
+			if depth[i+1] <= 2 {
+				d.Rank[i] = []string{"class", "order", "family"}[depth[i+1]]
+			}
+		}
+		qs := []*query{}
+		for i := 1; i <= n; i++ {
+			if depth[i] < n-12 && depth[i] != 150 && depth[i] != 101 && depth[i] != 102 {
+				continue
+			}
+			for _, rk := range []string{"class", "family", "no rank"} {
+				for _, op := range []string{"hasrank", "atrank", "seq_hasrank", "seq_atrank"} {
+					src := "api"
+					if (i+len(rk))%2 == 0 {
+						src = "dump"
+					}
+					q := newQuery(src, op)
+					q.K = []string{rk}
+					if strings.HasPrefix(op, "seq_") {
+						q.In = []int{i}
+					} else {
+						q.A = []int{i}
+					}
+					qs = append(qs, q)
+				}
+			}
+		}
+		jobs = append(jobs, job{d, "chain", qs, env.seed*31 + 9999})
 	}
 	// run the scenarios in parallel, write each one's events contiguously (load first)
 	var wmu sync.Mutex
